@@ -9,10 +9,10 @@ CHECKS = {
              "never reach the buffer or Process); MC_Processor.tla closes it with an explicit semaphore and TLC checks balance and "
              "capacity invariants. Seeded concurrent scenarios (random DAGs with missing parents and duplicates, events around the "
              "far-future threshold, 1-8 enqueuers, ordered/unordered batches, failing checks and Process calls, tight capacities and "
-             "buffer limits, early Stop) run on the real Processor+DataSemaphore; every Enqueue call/return, Exists, Process, "
+             "buffer limits, Stop while batches are in flight: random, with callback jitter, and gated inside HighestLamport) run on the real Processor+DataSemaphore; every Enqueue call/return, Exists, Process, "
              "Released, done callback, idle sample and Stop is recorded with Processing() and the trace is validated by TLC.",
         note="Trace validation of sampled (seeded) concurrent runs, not an enumeration of schedules; the closed model is checked at "
-             "small scope only. 'Finished handling' is read as 'done callback ran before Stop was called'. An Enqueue that is still "
+             "small scope only. 'Accepted and finished handling' is judged when Stop returns: the done callback ran and every event of the batch was released or reached the ordering buffer (Stop may interrupt a batch and still runs its done callback). An Enqueue that is still "
              "blocked 1.4 s after its 100 ms timeout (datasemaphore.Acquire has no timer, C30/F10) is unblocked by stopping the "
              "processor and reported as a note, never as a C15 violation.",
         technique="TLA+ abstract spec + TLC model checking of the closed model + TLC trace validation of real-code traces",
